@@ -84,6 +84,8 @@ DiagFPersist ==
     IF ~DstAgrees THEN "R4.destination"
     ELSE IF \A loc \in Rng(Ev.written) : UnderOut(L, loc)
          THEN "WritesUnderOut:persisted-object-is-" \o (CHOOSE x \in Rng(Ev.wtypes) : x # "file") \o ":" \o Ev.factory
+    ELSE IF \E loc \in Rng(Ev.written) : loc # <<>> /\ loc[1] = "out0"
+         THEN "WritesUnderOut:written-into-earlier-runs-outdir:" \o Ev.factory
     ELSE "WritesUnderOut:written-outside-outdir:" \o Ev.factory \o ":saveas-" \o Ev.saveas
 
 (* ---- collect (deny list) ------------------------------------------------ *)
@@ -105,6 +107,7 @@ DiagCollect ==
        [] Ev.items[i].cls = "meta"  -> ":regex-chars"
        [] Ev.items[i].cls = "deep"  -> ":deep-path-argument"
        [] Ev.items[i].cls = "digit-name" -> ":digit-in-name"
+       [] Ev.items[i].cls = "nonnormal" -> ":path-not-in-normal-form"
        [] OTHER -> "") \o
     (IF Ev.entry = "collect" THEN ":through-collect-entry-point" ELSE "")
 
